@@ -33,7 +33,8 @@ class TocRenderer(HtmlRenderer):
     @property
     def toc(self):
         """
-        Returns table of contents as a block_token.List instance.
+        Returns table of contents as a block_token.List instance
+        (None if no heading qualifies).
         """
         def build_list_item(depth, content):
             template = '{indent}- {content}\n'
@@ -49,7 +50,7 @@ class TocRenderer(HtmlRenderer):
             lines.append(build_list_item(len(open_levels), content))
             open_levels.append(level)
         items = block_token.tokenize(lines)
-        return items[0]
+        return items[0] if items else None
 
     def render_heading(self, token):
         """
